@@ -354,3 +354,37 @@ UNITS += [
                 "str(ft(result)) == want and ft(result).heritage[ft(result).start:ft(result).stop] == want"],
        native=gen_decode),
 ]
+
+
+# ---------------------------------------------------------------------------------------------------------------
+# The two simplest consumers of the scanner, verified modularly against an assumed contract of Traverse (the list of its
+# yields: positions inside s, a status out of three): IsWhole looks at the last yield only; RemoveComments returns the
+# characters at the yielded positions, in order, if every status is OK and raises ParsingException at the first that is
+# not.  What the yields *are* (the mode automaton) stays the bounded contract of Traverse above.
+YS = 'list[tuple[int,opt[str],str]]'
+LAST = "ys(s)[len(ys(s)) - 1]"
+
+UNITS += [
+  unit(F, 'Traverse', name='Traverse!yields', external=True, pure=True, params=['s'], types={'s': 'str'}, fields={},
+       returns=YS, requires=[],
+       ensures=["all(0 <= result[k][0] and result[k][0] < len(s) for k in range(len(result)))",
+                "all(result[k][2] == 'OK' or result[k][2] == 'Unmatched' or result[k][2] == 'EOL in string' "
+                "for k in range(len(result)))"]),
+  unit(F, 'IsWhole', name='IsWhole[modular]', props=['C15'], params=['s'], types={'s': 'str'}, fields={}, modifies=[],
+       returns='bool', calls={'Traverse': 'Traverse!yields'}, spec_calls={'ys': 'Traverse!yields'},
+       locals={'status': 'str', 'state': 'opt[str]'},
+       ensures=["result == (len(ys(s)) == 0 or (LAST[2] == 'OK' and LAST[1] is not None and LAST[1] == ''))"
+                .replace('LAST', LAST)],
+       loops={0: {'inv': ["implies(_i0 == 0, status == 'OK' and state is not None and state == '')",
+                          "implies(_i0 > 0, status == ys(s)[_i0 - 1][2] and state == ys(s)[_i0 - 1][1])"]}}),
+  unit(F, 'RemoveComments', name='RemoveComments[modular]', props=['C15', 'C19'], params=['s'], types={'s': 'str'},
+       fields={}, modifies=[], returns='str', calls={'Traverse': 'Traverse!yields'}, spec_calls={'ys': 'Traverse!yields'},
+       locals={'chars': 'list[str]'}, exceptions=['ParsingException'],
+       may_raise={'ParsingException': "any(ys(s)[k][2] != 'OK' for k in range(len(ys(s))))"},
+       ensures=["all(ys(s)[k][2] == 'OK' for k in range(len(ys(s))))",
+                "len(final_chars) == len(ys(s))",
+                "all(final_chars[k] == s[ys(s)[k][0]] for k in range(len(ys(s))))",
+                "result == ''.join(final_chars)"],
+       loops={0: {'inv': ["len(chars) == _i0", "all(ys(s)[k][2] == 'OK' for k in range(_i0))",
+                          "all(chars[k] == s[ys(s)[k][0]] for k in range(_i0))"]}}),
+]
